@@ -21,12 +21,12 @@ PROPS["C15"] = {
         Job("parse", "H_rawtext", "0..4", workers=8),
         Job("parse", "H_rawtextBytes", "1..3", workers=8),
         Job("soyhtml", "H_textlex", "0..3,0..2", workers=16, maxfan=16),
-        Job("soyhtml", "H_textlex", "0..2,3..9", workers=16, maxfan=16, note="after commands holding comments"),
+        Job("soyhtml", "H_textlex", "0..2,3..10", workers=16, maxfan=16, note="after commands holding comments"),
         Job("soyhtml", "H_literal", "0..3", workers=8, maxfan=16),
         Job("parse", "H_rawtext", "5", tier="thorough", workers=16),
         Job("soyhtml", "H_textlex", "4,0..2", tier="thorough", workers=16, maxfan=16),
         Job("soyhtml", "H_textlex", "5,0", tier="thorough", workers=16, maxfan=16),
-        Job("soyhtml", "H_textlex", "3,3..9", tier="thorough", workers=16, maxfan=16, note="after commands holding comments"),
+        Job("soyhtml", "H_textlex", "3,3..10", tier="thorough", workers=16, maxfan=16, note="after commands holding comments"),
     ],
     "bounds_quick": "rawtext(s,trimBefore,trimAfter) vs the line-joining rule: every ASCII string (bytes 1..127) of length <= 4 with both flags symbolic; order-preservation of non-whitespace bytes over all 256 byte values for length <= 3; the whole chain lexer -> text/comment tokens -> rawtext -> render for every template body of <= 3 characters over {a < > space LF CR / * :} between prints, at template start and at template end, and (<= 2 characters; thorough 3) after 7 commands that hold comments of their own (between call params, before a switch case, inside if/foreach/let/param blocks) (comment-free: exact output; with comments: exactly the non-whitespace characters outside comments; unclosed block comment: error); literal blocks of <= 3 characters over {a space { } LF CR TAB / < *} and all special-character commands",
     "bounds_thorough": "as quick, ASCII length <= 5; template bodies of 4 characters in all contexts and 5 between prints",
@@ -43,11 +43,12 @@ PROPS["C03"] = {
         Job("soyhtml", "H_decision", "0..3,0..3,0..8,0", workers=16),
         Job("soyhtml", "H_decision", "0..1,0..1,0..8,1..4", workers=16),
         Job("soyhtml", "H_decision", "0..3,0..3,0..3,4..8", workers=16, note="cross-namespace and cross-file calls"),
+        Job("soyhtml", "H_decision", "0..2,0..2,0..8,9", workers=16, note="translated message"),
         Job("soyhtml", "H_nonString", "0..4", workers=4),
         Job("soyhtml", "H_escape", "6", tier="thorough", workers=16),
-        Job("soyhtml", "H_decision", "0..3,0..3,0..8,1..8", tier="thorough", workers=16, note="all modes in all contexts"),
+        Job("soyhtml", "H_decision", "0..3,0..3,0..8,1..9", tier="thorough", workers=16, note="all modes in all contexts"),
     ],
-    "bounds_quick": "the HTML escaper (through an autoescaped print rendered by the public API) on all strings of <= 5 bytes (256 values each); evalPrint escape decision for $x = any 2 non-NUL bytes under 4x4 namespace/template autoescape attributes x 9 directive chains (direct print) and 2x2 modes x 9 chains in let-content, param-content, msg-placeholder and cross-namespace call contexts; cross-namespace calls from a caller whose template / namespace is autoescape=false / true into a callee with each of the 4x4 namespace/template attributes x 4 chains (the callee's own mode decides), also within one namespace spread over two files with different declarations, in both orders of addition; non-string values",
+    "bounds_quick": "the HTML escaper (through an autoescaped print rendered by the public API) on all strings of <= 5 bytes (256 values each); evalPrint escape decision for $x = any 2 non-NUL bytes under 4x4 namespace/template autoescape attributes x 9 directive chains (direct print) and 2x2 modes x 9 chains in let-content, param-content, msg-placeholder and cross-namespace call contexts; cross-namespace calls from a caller whose template / namespace is autoescape=false / true into a callee with each of the 4x4 namespace/template attributes x 4 chains (the callee's own mode decides), also within one namespace spread over two files with different declarations, in both orders of addition; a print in a message rendered through an identity catalogue after a raw print of the same value (3x3 modes x 9 chains); non-string values",
     "bounds_thorough": "escaper <= 6 bytes; all 16 mode pairs in every context",
     "outside": "strings longer than the bound; user-registered directives; changeNewlineToBr is checked under C16 (its regexp replacement through a validated Go model of the pattern); contextual escaping beyond what soy implements",
     "assumptions": ["decodeEntities (harness) is the reference decoder of the five character references"],
